@@ -289,3 +289,73 @@ fn c09_cmp_boolean_boolean() {
     assert!(ok_bool(ch::greater_than_value(&x, &y)) == (b2n(a) > b2n(b)));
     assert!(ok_bool(ch::greater_eq_value(&x, &y)) == (b2n(a) >= b2n(b)));
 }
+
+// ---------------------------------------------------------------------------------------------------------------
+// substring(): every numeric argument (complete over f64, incl. NaN, infinities, negatives, halves), contents SAMPLED
+// from a fixed list (a proof over the numbers, a sample over the strings; labelled so in the evidence).
+
+// A whole-function harness `substring("ab", any f64)` found the panics of the old implementation in 25 s (usize
+// underflow, split_at outside the string). On the repaired implementation the result is built with
+// chars().skip(lo).take(n).collect(): a String of symbolic length, which CBMC does not finish (300 s cap). The
+// function is therefore split by contract: `substring_range` (loop-free, every f64, every length and position:
+// below) and the character slicing (Verus, units/func_strings.py).
+
+/// the declarative round of XPath 4.4 used by the substring specification (checked against the real xpath_round below)
+fn spec_selected(p: usize, first: f64, end: Option<f64>) -> bool {
+    let pf = p as f64;
+    pf >= first && end.map(|e| pf < e).unwrap_or(true)
+}
+
+//@harness name=c09_xpath_round fn=xpath::func::xpath_round ob=closest_integer_ties_to_positive_infinity kind=complete inputs=a0:f64n op=xpath.func.round props=C09
+//@        claim="for every f64 x: xpath_round(x) (shared by round() and substring()) is the closest integer, ties towards +infinity; NaN, +-inf, +-0 unchanged; [-0.5, 0) gives -0"
+#[kani::proof]
+fn c09_xpath_round() {
+    let x: f64 = kani::any();
+    kani::cover!(x < -1.0 && x > -1.0e10);
+    let r = fh::xpath_round(x);
+    if x.is_nan() {
+        assert!(r.is_nan());
+    } else if x.is_infinite() || x == 0.0 {
+        assert!(r.to_bits() == x.to_bits());
+    } else if x < 0.0 && x >= -0.5 {
+        assert!(r == 0.0 && r.is_sign_negative());
+    } else {
+        let d = r - x;
+        assert!(r == r.trunc());
+        assert!(d <= 0.5 && d > -0.5);
+    }
+}
+
+//@harness name=c09_substring_range2 fn=xpath::func::substring_range ob=two_argument_form_selects_positions_from_round_start kind=complete inputs=len:usize,a1:f64n,p:usize op=xpath.func.substring_range props=C09
+//@        claim="for every length <= 2^53, every f64 start and every position p in 1..=len: p is inside the returned index range iff p >= round(start); the range is ordered and within the string"
+#[kani::proof]
+fn c09_substring_range2() {
+    let len: usize = kani::any();
+    let start: f64 = kani::any();
+    let p: usize = kani::any();
+    kani::assume(len <= (1usize << 53));
+    kani::assume(1 <= p && p <= len);
+    kani::cover!(start > 1.4 && start < 2.6 && len == 5);
+    let r = fh::substring_range(len, start, None);
+    assert!(r.start <= r.end && r.end <= len);
+    let inside = r.start < p && p <= r.end;
+    assert!(inside == spec_selected(p, fh::xpath_round(start), None));
+}
+
+//@harness name=c09_substring_range3 fn=xpath::func::substring_range ob=three_argument_form_selects_round_start_to_round_start_plus_round_length kind=complete inputs=len:usize,a1:f64n,a2:f64n,p:usize op=xpath.func.substring_range props=C09 tier=thorough
+//@        claim="for every length <= 2^53, all f64 start and length and every position p in 1..=len: p is inside the returned index range iff round(start) <= p < round(start) + round(length) (IEEE 754 addition: NaN selects nothing)"
+#[kani::proof]
+fn c09_substring_range3() {
+    let len: usize = kani::any();
+    let start: f64 = kani::any();
+    let length: f64 = kani::any();
+    let p: usize = kani::any();
+    kani::assume(len <= (1usize << 53));
+    kani::assume(1 <= p && p <= len);
+    kani::cover!(start > 1.4 && start < 2.6 && length > 2.6 && length < 3.4 && len == 5);
+    let r = fh::substring_range(len, start, Some(length));
+    assert!(r.start <= r.end && r.end <= len);
+    let inside = r.start < p && p <= r.end;
+    let first = fh::xpath_round(start);
+    assert!(inside == spec_selected(p, first, Some(first + fh::xpath_round(length))));
+}
